@@ -103,7 +103,6 @@ let dumpsnap (s : st) =
 let fault_name (f : sfault) : string =
   match f with
   | SF_short t -> Printf.sprintf "short-message-%02x" (int_of_n t)
-  | SF_diag_overread -> "diag-overread"
   | SF_cs_state_string -> "cs-state-string"
   | SF_multiple_bitmap -> "multiple-bitmap"
   | SF_vendor -> "vendor-lengths"
